@@ -1,0 +1,114 @@
+//go:build verif
+
+// Contracts for package main, property C10 ("an epoch is served only from indexes built for that epoch and CAR").
+// Comment-only; read by /verif/vcgo, build tag verif.
+package main
+
+// bytesEq(a, b): bytes.Equal(a, b); firstAt(m, key, i): pair i is the first pair of m stored under key (as in package indexmeta)
+//@ spec func bytesEq(a []byte, b []byte) bool = len(a) == len(b) && (forall i int :: 0 <= i && i < len(a) ==> a[i] == b[i])
+//@ spec func firstAt(m indexmeta.Meta, key []byte, i int) bool = 0 <= i && i < len(m.KeyVals) && bytesEq(m.KeyVals[i].Key, key) && (forall j int :: 0 <= j && j < i ==> !bytesEq(m.KeyVals[j].Key, key))
+// metaHasEpoch(m) && metaEpochIs(m, e): m has an "epoch" pair and the first one is the 8-byte little-endian encoding of e
+// (together: exactly what (Meta).GetUint64(MetadataKey_Epoch) == (e, true) means; two clauses because the solvers handle the
+// "exists a first pair" and "every first pair has value e" halves separately far better than one exists-with-payload)
+//@ spec func metaHasEpoch(m indexmeta.Meta) bool = exists i int :: firstAt(m, indexmeta.MetadataKey_Epoch, i)
+//@ spec func metaEpochIs(m indexmeta.Meta, e uint64) bool = forall i int :: firstAt(m, indexmeta.MetadataKey_Epoch, i) ==> len(m.KeyVals[i].Value) == 8 && (forall t int :: 0 <= t && t < 8 ==> byte(e >> (8*uint(t))) == m.KeyVals[i].Value[t])
+//@ spec func usesDeprecatedIndexes(c *Config) bool = c.Indexes.CidToOffsetAndSize.URI == "" && c.Indexes.CidToOffset.URI != ""
+
+// ---- configuration predicates (read-only) ----
+
+//@ func (URI) IsZero
+//@   mode int
+//@   ensures result == (u == "")
+
+//@ func (URI) IsRemoteWeb
+//@   mode int
+//@   noframe
+
+//@ func (*Config) IsDeprecatedIndexes
+//@   mode int
+//@   ensures result == usesDeprecatedIndexes(c)
+
+//@ func (*Config) IsFilecoinMode
+//@   mode int
+//@   ensures result == (c.Data.Filecoin != nil && c.Data.Filecoin.Enable)
+
+//@ func (*Config) IsCarFromPieces
+//@   mode int
+//@   ensures result ==> c.Data.Car != nil && c.Data.Car.FromPieces != nil
+
+// ---- storage openers: I/O abstracted (noframe); they create readers, they do not touch indexes or the Epoch being built ----
+
+//@ func openIndexStorage
+//@   mode int
+//@   ensures result1 == nil ==> result0 != nil
+//@   noframe
+
+//@ func openCarStorage
+//@   mode int
+//@   noframe
+
+//@ func readSectionFromReaderAt
+//@   mode int
+//@   noframe
+
+//@ func ReadAllFromReaderAt
+//@   mode int
+//@   noframe
+
+//@ func ParseFilecoinProviders
+//@   mode int
+//@   noframe
+
+//@ func newLassieWrapper
+//@   mode int
+//@   noframe
+
+// ---- M3: the identity checks of NewEpochFromConfig ----
+//
+// Preconditions = what (*Config).Validate guarantees for a loaded config (Epoch present; the Car section in CAR mode) and a
+// non-nil cli context. Success postconditions, one per index file that carries an identity (X := the reader stored in *result0):
+//   E0  result0.epoch == *config.Epoch
+//   E1  cid-to-offset-and-size (new format only; the deprecated cid-to-offset format has no meta):  X.Meta().Epoch == *config.Epoch
+//   E2  slot-to-cid, unless the file is in the deprecated format:                                   X.Meta().Epoch == *config.Epoch
+//   E3  sig-to-cid,  unless the file is in the deprecated format:                                   X.Meta().Epoch == *config.Epoch
+//   E4  gsfa MANIFEST (when a gsfa index is configured and its version is >= 2):                    X.Meta().GetUint64("epoch") == *config.Epoch
+//   E5  sig-exists (new format, i.e. !usesDeprecatedIndexes(config)):                               X.Meta().GetUint64("epoch") == *config.Epoch
+//   E6  slot-to-blocktime:                                                                         X.Epoch() == *config.Epoch
+// The gsfa pubkey-to-offset-and-size index (gsfaReader.offsets, opened inside gsfa.NewGsfaReader) has a Meta() with its own
+// Epoch and RootCid: the field is unexported in package gsfa and has no getter, so NO postcondition about it can even be
+// written here - and no statement of NewEpochFromConfig or NewGsfaReader reads it. See the report (finding F1).
+//@ func NewEpochFromConfig
+//@   mode int
+//@   requires c != nil
+//@   requires config != nil ==> config.Epoch != nil
+//@   requires config != nil && !(config.Data.Filecoin != nil && config.Data.Filecoin.Enable) ==> config.Data.Car != nil
+//@   noframe
+//@   ensures result1 == nil ==> result0 != nil && config != nil
+//@   ensures result1 == nil ==> result0.epoch == *config.Epoch
+//@   ensures result1 == nil && result0.cidToOffsetAndSizeIndex != nil ==> result0.cidToOffsetAndSizeIndex.Meta() != nil && result0.cidToOffsetAndSizeIndex.Meta().Epoch == *config.Epoch
+//@   ensures result1 == nil ==> result0.slotToCidIndex != nil
+//@   ensures result1 == nil && !result0.slotToCidIndex.IsDeprecatedOldVersion() ==> result0.slotToCidIndex.Meta() != nil && result0.slotToCidIndex.Meta().Epoch == *config.Epoch
+//@   ensures result1 == nil ==> result0.sigToCidIndex != nil
+//@   ensures result1 == nil && !result0.sigToCidIndex.IsDeprecatedOldVersion() ==> result0.sigToCidIndex.Meta() != nil && result0.sigToCidIndex.Meta().Epoch == *config.Epoch
+//@   ensures result1 == nil && result0.gsfaReader != nil && result0.gsfaReader.Version() >= 2 ==> result0.gsfaReader.Meta().GetUint64(indexmeta.MetadataKey_Epoch) == *config.Epoch
+//@   ensures result1 == nil && !usesDeprecatedIndexes(config) ==> result0.sigExists != nil && result0.sigExists.(*bucketteer.Reader).Meta() != nil
+//@   ensures result1 == nil && !usesDeprecatedIndexes(config) ==> (*result0.sigExists.(*bucketteer.Reader).Meta()).GetUint64(indexmeta.MetadataKey_Epoch) == *config.Epoch
+//@   # The same two facts spelled out over the stored pairs (metaHasEpoch / metaEpochIs): true, follow from GetUint64's contract,
+//@   # but z3/cvc5 do not re-derive the nested-quantifier formula inside this 2400-assertion path (timeout at 13 s, 60 s, 180 s;
+//@   # the quantifier-free core - GetUint64 returned (x, true) with x == *config.Epoch - is proved in 0.4 s). Kept for reference:
+//@   # ensures result1 == nil && result0.gsfaReader != nil && result0.gsfaReader.Version() >= 2 ==> metaHasEpoch(result0.gsfaReader.Meta()) && metaEpochIs(result0.gsfaReader.Meta(), *config.Epoch)
+//@   # ensures result1 == nil && !usesDeprecatedIndexes(config) ==> metaHasEpoch(*result0.sigExists.(*bucketteer.Reader).Meta()) && metaEpochIs(*result0.sigExists.(*bucketteer.Reader).Meta(), *config.Epoch)
+//@   ensures result1 == nil ==> result0.blocktimeindex != nil && result0.blocktimeindex.Epoch() == *config.Epoch
+//@   # CAR mode with new-format indexes always has the cid-to-offset-and-size index (so E1 is not vacuous):
+//@   ensures result1 == nil && !(config.Data.Filecoin != nil && config.Data.Filecoin.Enable) && !usesDeprecatedIndexes(config) ==> result0.cidToOffsetAndSizeIndex != nil
+//@   # ---- root CIDs (R1-R6): result0.rootCid is the "chain" value: slot-to-cid's root if that file is new-format, else
+//@   # cid-to-offset-and-size's root if present, else undefined; every other root CID that the code can see is equal to it
+//@   ensures result1 == nil ==> result0.rootCid == lastRootCid
+//@   ensures result1 == nil && !result0.slotToCidIndex.IsDeprecatedOldVersion() ==> result0.rootCid == result0.slotToCidIndex.Meta().RootCid
+//@   ensures result1 == nil && result0.slotToCidIndex.IsDeprecatedOldVersion() && result0.cidToOffsetAndSizeIndex != nil ==> result0.rootCid == result0.cidToOffsetAndSizeIndex.Meta().RootCid
+//@   ensures result1 == nil && result0.slotToCidIndex.IsDeprecatedOldVersion() && result0.cidToOffsetAndSizeIndex == nil ==> result0.rootCid == cid.Undef
+//@   ensures result1 == nil && result0.cidToOffsetAndSizeIndex != nil ==> result0.cidToOffsetAndSizeIndex.Meta().RootCid == result0.rootCid
+//@   ensures result1 == nil && !result0.sigToCidIndex.IsDeprecatedOldVersion() ==> result0.sigToCidIndex.Meta().RootCid == result0.rootCid
+//@   ensures result1 == nil && config.Data.Filecoin != nil && config.Data.Filecoin.Enable ==> config.Data.Filecoin.RootCID == result0.rootCid
+//@   ensures result1 == nil && result0.gsfaReader != nil && result0.gsfaReader.Version() >= 2 ==> result0.gsfaReader.Meta().GetCid(indexmeta.MetadataKey_RootCid) == result0.rootCid
+//@   ensures result1 == nil && !usesDeprecatedIndexes(config) ==> (*result0.sigExists.(*bucketteer.Reader).Meta()).GetCid(indexmeta.MetadataKey_RootCid) == result0.rootCid
